@@ -261,6 +261,12 @@ func run(out *Out, r *Rand, tier string, replay []string) {
 	}
 	dres := runInChildren(outDir, dry)
 	recordFault(out, dry, dres)
+	nsync := 0
+	for _, d := range dres {
+		nsync += d.counts["syncrecv"]
+	}
+	// evidence that answer.Return really ran on a receive goroutine in the fault-free runs
+	out.Extra["x_sync_returns_on_receive_goroutine_dry"] = nsync
 
 	// the full product
 	var all []string
